@@ -84,3 +84,20 @@ package client
 //@   opaque-callee async
 //@   at call(failRequest) assert own: typeIs(key, uint64) && typeIs(value, *batchCommandsEntry) ==> arg_requestID == key.(uint64) && arg_entry == value.(*batchCommandsEntry) && arg_err == err
 //@   ensures all: result
+
+// A broken stream: the receive loop that wins the epoch first fails all pending requests of that stream (same forwarded
+// host) with the stream's error, and only then tries to re-create it. Ghost: failedAll counts the calls of failPendingRequests.
+//@ ghost field batchCommandsClient.failedAll int
+//@ func (*batchCommandsClient) failPendingRequests
+//@   prop C18
+//@   may-panic
+//@   opaque-callee Range
+//@   modifies-also batchCommandsClient.failedAll of c
+//@   postulate c.failedAll == old(c.failedAll) + 1
+//@ func (*batchCommandsClient) recreateStreamingClient
+//@   prop C18
+//@   may-panic
+//@   opaque-callee lockForRecreate unlockForRecreate recreate isStopped NewBackofferWithVars Log
+//@   loop 1 invariant failed: c.failedAll == old(c.failedAll) + 1
+//@   at call(failPendingRequests) assert whose: arg_err == err && arg_forwardedHost == streamClient.forwardedHost
+//@   at call(recreateStreamingClientOnce) assert failedfirst: c.failedAll == old(c.failedAll) + 1 && arg_streamClient == streamClient
